@@ -21,7 +21,7 @@ def saturating_weight(birth, pers, a=1.0):
 
 
 KERNELS = ("iso-scalar", "iso-matrix", "diag", "corr", "corr-high", "uniform", "user")
-WEIGHTS = ("persistence", "persistence-n2", "linear_ramp", "ramp-zero-below", "ramp-int-params", "user", "lambda")
+WEIGHTS = ("persistence", "persistence-n2", "linear_ramp", "ramp-zero-below", "ramp-int-params", "user", "lambda", "ramp-signed")
 BOUNDED_WEIGHTS = ("linear_ramp", "ramp-zero-below", "ramp-int-params")     # finite at infinite persistence
 
 
@@ -84,6 +84,8 @@ def weight_of(cfg):
         return "linear_ramp", {"low": 0.0, "high": 1.0, "start": 0.3 * u, "end": 0.8 * u}
     if w == "ramp-int-params":       # the parameters as Python ints, as in the documentation's examples
         return "linear_ramp", {"low": 0, "high": 2, "start": 0, "end": 1 if u == 1.0 else u}
+    if w == "ramp-signed":           # a weight that changes sign (the statement restricts only its positivity clauses)
+        return "linear_ramp", {"low": -1.0, "high": 1.0, "start": 0.0, "end": 1.0 * u}
     if w == "user":
         return saturating_weight, {"a": 1.5}
     if w == "lambda":
@@ -175,6 +177,12 @@ def gen_bd_diagram(rng, cfg, max_n=6, allow_empty=True):
     if rng.random() < 0.2:
         pts = [[float(round(x * 4) / 4) for x in q] for q in pts]
         pts = [[q[0], max(q)] for q in pts]
+    if cfg.get("weight") == "ramp-signed" and rng.random() < 0.5:
+        # pairs whose signed weights cancel exactly (persistences 1/4 and 3/4 of the ramp: weights -1/2 and +1/2)
+        u = float(cfg.get("unit", 1.0))
+        pts = [[b0 + 0.25 * (b1 - b0), b0 + 0.25 * (b1 - b0) + 0.25 * u], [b0 + 0.5 * (b1 - b0), b0 + 0.5 * (b1 - b0) + 0.75 * u]]
+        if rng.random() < 0.5:
+            pts = pts + [list(q) for q in pts]
     # Essential classes (infinite death) are deliberately not generated: the imager does not define their image
     # (the default persistence weight gives inf*0 = nan, correlated kernels give nan as well), so rejecting or
     # imaging them differently would be a legitimate change, not a violation of C11.
